@@ -176,9 +176,11 @@ def h_jwe(ctx):
     else:
         name = ctx.choose("name", ["DEF", "def", "GZIP", "", "A128GCM"] + NONSTR)
     form = ctx.choose("allow_list", LFORMS)
-    how = ctx.choose("given_as", ["algorithms", "registry"])
+    how = ctx.choose("given_as", ["algorithms", "registry", "algorithms+default-JWERegistry"])
     op = ctx.choose("operation", ["encrypt", "decrypt"])
     path = ctx.choose("path", ["compact", "flattened", "general", "jwt"])
+    if how == "algorithms+default-JWERegistry" and path != "jwt":
+        return Outcome("n/a", [], nontrivial=None)
     if dim == "alg":
         alg = name
         enc = "A128CBC-HS256" if isinstance(name, str) and "1PU+" in name else "A128GCM"
@@ -208,6 +210,9 @@ def h_jwe(ctx):
     def kw():
         if how == "algorithms":
             return {"algorithms": copy.copy(L)}
+        if how == "algorithms+default-JWERegistry":
+            # jwt picks the JWE transport by the registry's type; the explicit list must still be the one that counts
+            return {"algorithms": copy.copy(L), "registry": jwe.JWERegistry()}
         return {"registry": jwe.JWERegistry(algorithms=copy.copy(L)) if L is not None else None}
     hdr = {"alg": alg, "enc": enc}
     if dim == "zip":
@@ -269,16 +274,29 @@ class GateModel:
             ("jwe.decrypt-enc", "XC20P", ("dir", "XC20P")), ("jwe.decrypt", "ECDH-1PU", None), ("jwe.decrypt", "ECDH-1PU", ("ECDH-1PU", "A128GCM")),
             ("jwe.decrypt-json", "A192KW", None), ("jwe.decrypt-unknown-list", "A128KW", ("FOO", "BAR")),
             ("register", "ecdh-1pu", None), ("register", "chacha20", None),
+            # the caller keeps one list object, passes it, and later changes it
+            ("jws.verify-callers-list", "HS256", None), ("jws.sign-callers-list", "HS256", None), ("caller-appends-to-its-list", "HS384", None),
+            ("jws.verify", "HS384", ("HS256",)), ("jws.verify-json", "HS384", ("HS256",)), ("jws.sign", "HS384", ("HS256",)),
+            ("jwe.decrypt-callers-list", "A128KW", None), ("caller-appends-to-its-jwe-list", "A192KW", None), ("jwe.decrypt", "A192KW", ("A128KW", "A128GCM")),
         ]
         self._base = {}
 
     def make(self):
-        return {"registrations": set()}
+        return {"registrations": set(), "callers_list": ["HS256"], "callers_jwe_list": ["A128KW", "A128GCM"]}
 
     def apply(self, st, op):
         from joserfc import jws, jwe, jwt, rfc7797
         kind, name, L = op
         L = list(L) if L is not None else None
+        if kind == "caller-appends-to-its-list":
+            st["callers_list"].append(name)
+            return ("appended", name)
+        if kind == "caller-appends-to-its-jwe-list":
+            st["callers_jwe_list"].append(name)
+            return ("appended", name)
+        if kind.endswith("-callers-list"):
+            L = st["callers_jwe_list"] if kind.startswith("jwe") else st["callers_list"]     # the very same list object every time
+            kind = kind[:-len("-callers-list")]
         if kind == "register":
             if name == "ecdh-1pu":
                 from joserfc.drafts.jwe_ecdh_1pu import register_ecdh_1pu
@@ -335,7 +353,8 @@ class GateModel:
         return ("ok:" + repr(r.value[0])) if r.ok else ("rej:" + type(r.exc).__name__)
 
     def canon(self, st):
-        return (tuple(sorted(st["registrations"])), canon_modules())
+        from ..history import canon_state
+        return (tuple(sorted(st["registrations"])), canon_state(st["callers_list"], st["callers_jwe_list"]))
 
     def bucket(self, obs):
         return str(obs)[:24]
@@ -353,8 +372,10 @@ class GateModel:
 
     def check(self, hist, op, obs, st):
         regs = {h[1] for h in hist if h[0] == "register"}
-        if op[0] == "register":
+        if op[0] == "register" or op[0].startswith("caller-appends"):
             return []
+        if op[0].endswith("-callers-list"):
+            return []     # its outcome legitimately depends on what the caller put into its own list
         base = self.baseline(op, regs)
         if obs != base:
             kind, name, L = op
